@@ -52,9 +52,10 @@ fn atom(s: &str) -> Sexp { Sexp::atom(s) }
 fn app(h: &str, v: Vec<Sexp>) -> Sexp { Sexp::app(h, v) }
 fn int(i: i64) -> Sexp { Sexp::int(i) }
 
-fn ctx_sexp(vars: &[(usize, char)]) -> Sexp {
+/// `consts`: the variables declared by `const` items (they cannot be assigned to)
+fn ctx_sexp(vars: &[(usize, char)], consts: &[usize]) -> Sexp {
     let regs = REGS.iter().map(|&(r, t)| Sexp::list(vec![int(r as i64), atom(&t.to_string())])).collect();
-    let vs = vars.iter().map(|&(n, t)| Sexp::list(vec![int(n as i64), atom(&t.to_string())])).collect();
+    let vs = vars.iter().map(|&(n, t)| { let mut v = vec![int(n as i64), atom(&t.to_string())]; if consts.contains(&n) { v.push(atom("c")); } Sexp::list(v) }).collect();
     let sigs = SIGS.iter().map(|&(op, _, ps)| {
         let mut v = vec![int(op as i64)];
         for &(t, o) in ps { v.push(Sexp::list(vec![atom(&t.to_string()), atom(if o { "o" } else { "r" })])); }
@@ -216,7 +217,7 @@ enum T { I, F, S }
 #[derive(Copy, Clone, PartialEq, Eq, Debug)]
 enum ET { Void, Val(T) }
 
-struct RefTyper { regs: Vec<(i64, Option<T>)>, vars: Vec<(i64, Option<T>)>, sigs: Vec<(i64, Vec<(Option<T>, bool)>)> }
+struct RefTyper { regs: Vec<(i64, Option<T>)>, vars: Vec<(i64, Option<T>)>, consts: Vec<i64>, sigs: Vec<(i64, Vec<(Option<T>, bool)>)> }
 
 /// why an expression is not typable; `Padding` marks calls to a signature whose optional
 /// parameters are not all at the end (where "the corresponding parameter" is what the arity
@@ -233,6 +234,7 @@ impl RefTyper {
         let pairs = |s: &Sexp| s.args().iter().map(|p| { let p = p.as_list(); (p[0].as_i64(), vt(p[1].as_atom())) }).collect::<Vec<_>>();
         RefTyper {
             regs: pairs(&a[0]), vars: pairs(&a[1]),
+            consts: a[1].args().iter().filter(|p| p.as_list().get(2).map(|m| m.as_atom() == "c").unwrap_or(false)).map(|p| p.as_list()[0].as_i64()).collect(),
             sigs: a[2].args().iter().map(|s| { let s = s.as_list(); (s[0].as_i64(), s[1..].iter().map(|p| { let p = p.as_list(); (vt(p[0].as_atom()), p[1].as_atom() == "o") }).collect()) }).collect(),
         }
     }
@@ -304,6 +306,11 @@ impl RefTyper {
         let a = r.args();
         self.access(a[0].as_atom() == "r", a[1].as_i64(), a[2].as_atom())
     }
+    /// only registers and non-constant variables can be written to
+    fn assignable(&self, r: &Sexp) -> Result<(), Ill> {
+        let a = r.args();
+        if a[0].as_atom() != "r" && self.consts.contains(&a[1].as_i64()) { Err(Ill::Plain) } else { Ok(()) }
+    }
     fn int_expr(&self, e: &Sexp) -> Result<(), Ill> { if self.value(e)? == T::I { Ok(()) } else { Err(Ill::Plain) } }
 
     /// the rule of one statement, not looking into nested statement lists
@@ -312,6 +319,7 @@ impl RefTyper {
         match s.head().expect("stmt") {
             "estmt" => if self.expr(&a[0])? == ET::Void { Ok(()) } else { Err(Ill::Plain) },
             "assign" => {
+                self.assignable(&a[0])?;
                 let (tv, te) = (self.ref_access(&a[0])?, self.value(&a[2])?);
                 if tv != te { return Err(Ill::Plain); }
                 match a[1].as_atom() {
@@ -327,7 +335,7 @@ impl RefTyper {
             "const" => { let t = self.value(&a[1])?; if self.inherent(false, a[0].as_i64()) == Some(t) { Ok(()) } else { Err(Ill::Plain) } },
             "if" | "ifelif" | "ifnoelse" | "while" | "dowhile" => self.int_expr(&a[0]),
             "times" => self.int_expr(&a[0]),
-            "timesc" => { self.int_expr(&a[1])?; if self.ref_access(&a[0])? == T::I { Ok(()) } else { Err(Ill::Plain) } },
+            "timesc" => { self.int_expr(&a[1])?; self.assignable(&a[0])?; if self.ref_access(&a[0])? == T::I { Ok(()) } else { Err(Ill::Plain) } },
             "cjump" => self.int_expr(&a[3]),
             "interrupt" | "reltime" => self.int_expr(&a[0]),
             "ret" => match (a.get(0), ret) {
@@ -389,8 +397,8 @@ struct Gen<'a> {
     vars: Vec<(usize, char)>,
     /// variables in scope (innermost scope last)
     scopes: Vec<Vec<usize>>,
-    /// `const` variables: never assignment / clobber targets (assignment to a const is not a type
-    /// error; nothing rejects it and lowering panics, see `witness-assign-to-const`)
+    /// `const` variables: never assignment / clobber targets in generated (well-typed) programs;
+    /// the `const-target` mutation and `witness-assign-to-const` put one there
     consts: Vec<usize>,
     loops: u32,
     label: i64,
@@ -749,6 +757,9 @@ fn mutants(ctx: &Sexp, items: &[Sexp], rng: &mut Rng, per_node: usize) -> Vec<(S
         for &i in path { if node.head() == Some("const") { return true; } node = &node.as_list()[i]; }
         node.head() == Some("const")
     }
+    // top-level `const` items are in scope in everything that follows them
+    let ctx_vars = Vars::from_ctx(ctx);
+    let top_consts: Vec<(usize, char)> = items.iter().filter(|s| s.head() == Some("const")).map(|s| { let n = s.args()[0].as_usize(); (n, ctx_vars.ty(n)) }).collect();
     let mut sites: Vec<(Vec<usize>, Sexp)> = vec![];
     walk(&whole, &mut vec![], &mut |n, p| { sites.push((p.to_vec(), n.clone())); });
     for (path, node) in &sites {
@@ -763,6 +774,11 @@ fn mutants(ctx: &Sexp, items: &[Sexp], rng: &mut Rng, per_node: usize) -> Vec<(S
                 let o = if t == T::I { 'f' } else { 'i' };
                 variants.push((app("ref", vec![atom("r"), int(reg_of(o, rng)), atom("n")]), "variable"));
                 variants.push((app("ref", vec![atom("r"), int(reg_of('u', rng)), atom("n")]), "variable"));
+                // a constant of the SAME type as target: well-typed operands, but constants cannot be written to
+                let tc = if t == T::I { 'i' } else { 'f' };
+                if let Some(&(n, _)) = top_consts.iter().find(|c| c.1 == tc) {
+                    variants.insert(0, (app("ref", vec![atom("v"), int(n as i64), atom("n")]), "const-target"));
+                }
             }
         } else if head == "assign" {
             let a = node.args();
@@ -792,7 +808,7 @@ fn mutants(ctx: &Sexp, items: &[Sexp], rng: &mut Rng, per_node: usize) -> Vec<(S
         for nt in nts {
             let mut nv = vars.0.clone();
             for x in nv.iter_mut() { if x.0 == n { x.1 = nt; } }
-            out.push((ctx_sexp(&nv), whole.clone(), "mut-declared-type".to_string()));
+            out.push((ctx_sexp(&nv, &const_ids), whole.clone(), "mut-declared-type".to_string()));
         }
     }
     out
@@ -934,23 +950,24 @@ fn eval_pipe(ctx: &Sexp, items: &[Sexp]) -> Sexp {
 fn gen_program(rng: &mut Rng, tame: bool, depth: u32) -> (Sexp, Vec<Sexp>) {
     let mut g = Gen { rng, vars: vec![], scopes: vec![], consts: vec![], loops: 0, label: 0, next_root: 0, tame };
     let items = g.program(depth);
-    let ctx = ctx_sexp(&g.vars);
+    let ctx = ctx_sexp(&g.vars, &g.consts);
     (ctx, items)
 }
 
-/// the hand-written witnesses of section 5 of Props/C09.lean, replayed on the implementation
+/// the hand-written witnesses of section 5 of Props/C09.lean (defects of the pinned tree, all
+/// repaired: 9b7e57b, 9d4386e, 353f983, 0757655), replayed on the implementation as regressions
 fn witnesses() -> Vec<(Sexp, Vec<Sexp>, &'static str)> {
     let f15 = app("f", vec![int(0x3fc00000)]);
     let script = |body: Vec<Sexp>| app("script", vec![int(0), Sexp::list(body)]);
     vec![
-        (ctx_sexp(&[]), vec![script(vec![app("block", vec![Sexp::list(vec![app("assign", vec![app("ref", vec![atom("r"), int(10000), atom("n")]), atom("assign"), f15.clone()])])])])], "witness-free-block"),
-        (ctx_sexp(&[]), vec![script(vec![app("interrupt", vec![f15.clone()])])], "witness-interrupt-label"),
-        (ctx_sexp(&[]), vec![script(vec![app("reltime", vec![f15.clone()])])], "witness-rel-time-label"),
-        (ctx_sexp(&[(0, 'i')]), vec![app("const", vec![int(0), f15.clone()]), script(vec![app("assign", vec![app("ref", vec![atom("r"), int(10000), atom("n")]), atom("assign"), app("var", vec![int(0), atom("n")])])])], "witness-const-decl"),
-        (ctx_sexp(&[]), vec![script(vec![app("estmt", vec![app("call", vec![int(906), app("i", vec![int(1)]), app("i", vec![int(2)])])])])], "regression-padding"),
-        (ctx_sexp(&[]), vec![script(vec![app("ret", vec![])])], "witness-return-outside-function"),
-        // not a type error under any documented rule, but nothing rejects it: `const int v0 = 1; script s0 { v0 = 2; }`
-        (ctx_sexp(&[(0, 'i')]), vec![app("const", vec![int(0), app("i", vec![int(1)])]), script(vec![app("assign", vec![app("ref", vec![atom("v"), int(0), atom("n")]), atom("assign"), app("i", vec![int(2)])])])], "witness-assign-to-const"),
+        (ctx_sexp(&[], &[]), vec![script(vec![app("block", vec![Sexp::list(vec![app("assign", vec![app("ref", vec![atom("r"), int(10000), atom("n")]), atom("assign"), f15.clone()])])])])], "witness-free-block"),
+        (ctx_sexp(&[], &[]), vec![script(vec![app("interrupt", vec![f15.clone()])])], "witness-interrupt-label"),
+        (ctx_sexp(&[], &[]), vec![script(vec![app("reltime", vec![f15.clone()])])], "witness-rel-time-label"),
+        (ctx_sexp(&[(0, 'i')], &[0]), vec![app("const", vec![int(0), f15.clone()]), script(vec![app("assign", vec![app("ref", vec![atom("r"), int(10000), atom("n")]), atom("assign"), app("var", vec![int(0), atom("n")])])])], "witness-const-decl"),
+        (ctx_sexp(&[], &[]), vec![script(vec![app("estmt", vec![app("call", vec![int(906), app("i", vec![int(1)]), app("i", vec![int(2)])])])])], "regression-padding"),
+        (ctx_sexp(&[], &[]), vec![script(vec![app("ret", vec![])])], "witness-return-outside-function"),
+        // `const int v0 = 1; script s0 { v0 = 2; }`: constants cannot be written to
+        (ctx_sexp(&[(0, 'i')], &[0]), vec![app("const", vec![int(0), app("i", vec![int(1)])]), script(vec![app("assign", vec![app("ref", vec![atom("v"), int(0), atom("n")]), atom("assign"), app("i", vec![int(2)])])])], "witness-assign-to-const"),
     ]
 }
 
@@ -963,7 +980,7 @@ impl Prop for C09 {
         "type-directed random programs (global consts, inline functions with return, scripts; assignments and compound assignments, declarations with/without initialiser incl. untyped `var`, const declarations, instruction calls against 8 signatures incl. padding and string parameters, if / else-if / else, while, do-while, loop, times with and without clobber, conditional goto/break, interrupt and time labels, free blocks nested up to depth 4) and ALL their single-point mutations: every expression node at every depth (literal, operand, variable, sigil, cast, operator, argument, arity, opcode), every assignment/clobber target, every assignment operator, every return, every declared type; plus standalone expressions with their mutations; non-trivial = mutated program or nesting depth >= 2; distinct by case text"
     }
     fn theorems(&self) -> &'static [&'static str] {
-        &["TruthModel.C09.check_sound", "TruthModel.C09.check_complete", "TruthModel.C09.computeTy_agrees", "TruthModel.C09.stmts_accept_iff_welltyped_partial", "TruthModel.C09.stmts_accept_iff_welltyped_for_cfg", "TruthModel.C09.stmts_accept_iff_welltyped_status", "TruthModel.C09.type_preservation"]
+        &["TruthModel.C09.check_sound", "TruthModel.C09.check_complete", "TruthModel.C09.computeTy_agrees", "TruthModel.C09.stmts_accept_iff_welltyped", "TruthModel.C09.stmts_accept_iff_welltyped_for_cfg", "TruthModel.C09.stmts_accept_iff_welltyped_status", "TruthModel.C09.type_preservation"]
     }
 
     fn gen(&self, tier: Tier, rng: &mut Rng) -> Vec<Case> {
@@ -971,10 +988,8 @@ impl Prop for C09 {
         let mut out = vec![];
         // (0) the Lean witnesses, on the real code (both as correspondence and through the pipeline)
         for (ctx, items, tag) in witnesses() {
-            let is_ret = tag == "witness-return-outside-function";
-            let c = app("prog", vec![ctx.clone(), Sexp::list(items.clone())]);
-            out.push(if is_ret { Case::search(c) } else { Case::corr(c) }.tag(tag));
-            if !is_ret { out.push(Case::search(app("pipe", vec![ctx, Sexp::list(items)])).tag(format!("pipe-{tag}"))); }
+            out.push(Case::corr(app("prog", vec![ctx.clone(), Sexp::list(items.clone())])).tag(tag));
+            out.push(Case::search(app("pipe", vec![ctx, Sexp::list(items)])).tag(format!("pipe-{tag}")));
         }
         // (a) programs and all their single-point mutants
         for k in 0..200 * scale {
@@ -1002,7 +1017,7 @@ impl Prop for C09 {
             let mut g = Gen { rng, vars: vec![], scopes: vec![vec![]], consts: vec![], loops: 0, label: 0, next_root: 0, tame: false };
             let depth = 1 + (k % 5) as u32;
             let e = match k % 7 { 0..=2 => g.expr('i', depth), 3..=5 => g.expr('f', depth), _ => g.call(depth.min(3)) };
-            let ctx = ctx_sexp(&[]);
+            let ctx = ctx_sexp(&[], &[]);
             out.push(Case::corr(app("expr", vec![ctx.clone(), e.clone()])).tag("expr-generated").trivial(depth < 2));
             let wrapped = vec![app("estmt", vec![e])];
             for (mctx, m, tag) in mutants(&ctx, &wrapped, rng, 2) {
